@@ -206,6 +206,30 @@ def wl_grid(ctx):
     ctx.hist("grid", "points", k // ctx.nshards)
 
 
+def wl_midpoints(ctx):
+    """Colours on and around the segment between every pair of entries of the two 16-colour palettes, dense near the
+    point where the nearest entry changes: where an argmin with a wrong shortcut goes wrong."""
+    api = _api()
+    pal = _palettes(api)
+    std, win, _ = pal
+    k = 0
+    for palette in (std, win):
+        for i in range(16):
+            for j in range(i + 1, 16):
+                k += 1
+                if k % ctx.nshards != ctx.shard:
+                    continue
+                a, b = palette[i], palette[j]
+                for t in range(0, 41):
+                    f = t / 40.0
+                    base = [a[c] + (b[c] - a[c]) * f for c in range(3)]
+                    for d in ((0, 0, 0), (3, 0, 0), (0, -3, 0), (0, 0, 5), (-2, 2, -2)):
+                        rgb = tuple(max(0, min(255, int(round(base[c] + d[c])))) for c in range(3))
+                        ch = check_color(ctx, _triplet_color(api, *rgb), api, pal)
+                        ctx.case_done(("rgb",) + rgb, ch, None)
+    ctx.hist("midpoint_pairs", "done", k // ctx.nshards)
+
+
 def wl_random(ctx, rng, case_no):
     api = _api()
     pal = _palettes(api)
@@ -274,6 +298,7 @@ def workloads(tier):
     wl = [WL("palette", wl_palette, kind="custom"),
           WL("indexed", wl_indexed, kind="custom"),
           WL("grid", wl_grid, kind="custom"),
+          WL("palette_pair_midpoints", wl_midpoints, kind="custom"),
           WL("random", wl_random, 600000 if tier == "thorough" else 60000)]
     if tier == "thorough":
         wl.append(WL("all_rgb", wl_all_rgb, kind="custom"))
